@@ -160,6 +160,55 @@ def run_async_client(rng, peer, discover, oids, drop=()):
     return script, r, results
 
 
+def refresh_trace(mode, peer, given, outcomes, ncalls):
+    """drive refresh() of the real client `ncalls` times against an agent that answers the k-th probe iff
+    outcomes[k]; returns ([(probes seen during the call, raised)], deferred?, to_refresh?)"""
+    st = peer.state
+    seen = {"probes": 0}
+
+    def plan(dg):
+        req = peer.decode(dg) if not (ber.decode_message(dg).get("user") == b"" and not ber.decode_message(dg)["flags"] & 3) \
+            else ag.V3AgentState(b"", boots=0, time=0, user="").parse_request(dg)
+        k = seen["probes"]
+        seen["probes"] += 1
+        if k < len(outcomes) and outcomes[k]:
+            if req["engine_id"] == b"":
+                return [st.report(req["request_id"], req["msg_id"], user=req["user"])]
+            return [st.report(req["request_id"], req["msg_id"], auth=bool(st.auth_alg) and bool(req["flags"] & 1))]
+        return []
+    calls = []
+    kw = dict(engine_id=st.engine_id if given else None, user=client_user(st), timeout=0.12)
+    if mode == "sync":
+        from gufo.snmp.sync_client import SnmpSession
+        agent = e2e.ThreadAgent(lambda dg: [(0, x) for x in plan(dg)])
+        try:
+            sess = SnmpSession("127.0.0.1", port=agent.port, **kw)
+            for _ in range(ncalls):
+                before = seen["probes"]
+                r = e2e.ncall(sess.refresh)
+                calls.append((seen["probes"] - before, r[0] != "ok"))
+            return calls, sess._deferred_user is not None, bool(sess._to_refresh)
+        finally:
+            agent.stop = True
+
+    async def main(port):
+        from gufo.snmp.async_client import SnmpSession
+        sess = SnmpSession("127.0.0.1", port=port, **kw)
+        for _ in range(ncalls):
+            before = seen["probes"]
+            try:
+                await sess.refresh()
+                raised = False
+            except Exception:  # noqa: BLE001
+                raised = True
+            calls.append((seen["probes"] - before, raised))
+        return sess._deferred_user is not None, bool(sess._to_refresh)
+    r, _ = e2e.run_async(main, plan)
+    if r[0] != "ok":
+        return calls, None, None
+    return calls, r[1][0], r[1][1]
+
+
 def run(chk, model_ok=True):
     rng = random.Random(chk.seed)
     quick = chk.tier == "quick"
@@ -203,6 +252,33 @@ def run(chk, model_ok=True):
         for o, v, ans in zip(oids, results, script.answers):
             if len(ans) != 1 or v != ans[0][1]:
                 fail(f"{key}: get({o}) returned {v!r}, the agent answered {ans}", line)
+    # 1b. the refresh() state machine of both clients against its model (Model/PyClient.lean: Py.refresh)
+    rlines, rwant = [], []
+    for k in range(16 if quick else 300):
+        mode = "sync" if k % 2 == 0 else "async"
+        given = rng.random() < 0.4
+        auth = rng.choice([0, 1, 2])
+        peer = sessions.rand_v3_peer(rng, auth=auth, priv=0, kt="localized")
+        ncalls = rng.randrange(1, 4)
+        outcomes = [rng.random() < 0.6 for _ in range(2 * ncalls)]
+        calls, deferred, to_refresh = refresh_trace(mode, peer, given, outcomes, ncalls)
+        rlines.append(f"refresh {int(given)} {int(bool(auth))} {ncalls} " + ",".join(str(int(o)) for o in outcomes))
+        rwant.append((calls, deferred, to_refresh, mode))
+    n_refresh = len(rlines)
+    if model_ok and rlines:
+        out, _, _ = common.run_model(rlines)
+        for ln, (calls, deferred, to_refresh, mode), mo in zip(rlines, rwant, out + ["<missing>"] * (len(rlines) - len(out))):
+            ok_ = mo.startswith("ok ")
+            if ok_:
+                body, fin = mo[3:].split("|")
+                mcalls = [(c.count("P"), c.endswith("!")) for c in body.split(";")]
+                ok_ = mcalls == calls and fin == f"{int(bool(deferred))}{int(bool(to_refresh))}"
+            if not ok_:
+                chk.violation("correspondence", f"refresh() of the {mode} client: {ln} -> implementation {calls} deferred={deferred} "
+                              f"to_refresh={to_refresh}, model {mo}",
+                              {"kind": "correspondence", "stream": "refresh", "lines": [ln], "impl": [str((calls, deferred, to_refresh))],
+                               "model": [mo], "broken": ["correspondence refresh: Lean Py.refresh vs the Python clients"]}, no_input=True)
+                break
     # 2. raw sockets driven like the clients do (deferred default user, Report, set_keys, second probe), replayed on the model
     all_sess = []
     n_hist = 75 if quick else 1800
@@ -284,7 +360,7 @@ def run(chk, model_ok=True):
                 "the agent's engine id and be decryptable; raw sockets driven through the same deferred-user flow with lost, "
                 "non-matching and foreign-engine replies in between, replayed on the Lean model incl. the learned state.",
         "samples": [{"configuration": k, "runs": v} for k, v in list(sorted(hist.items()))[:6]],
-        "client_runs": n_cli, "per_configuration": dict(sorted(hist.items())), "requests_judged": n_req,
+        "client_runs": n_cli, "refresh_state_machine_cases": n_refresh, "per_configuration": dict(sorted(hist.items())), "requests_judged": n_req,
         "session_lines": nl, "session_lines_disagreeing": nd,
         "traces_validated_against_impl": nl if model_ok else 0,
     })
